@@ -22,6 +22,7 @@ class Gen:
         self.rnd = rnd
         self.cals = [CalendarSystem.for_id(c) for c in CalendarSystem.ids]
         self.calord = {c.id: int(c._ordinal) for c in self.cals}
+        self.fields: dict = {}          # (calendar index, day number) -> (year, month, day) where the driver chose the day by its fields
 
     # ---- parameter pools (small, so that equal and adjacent values are frequent) -----------------
     def ns_small(self):
@@ -48,8 +49,8 @@ class Gen:
 
     # ---- types ---------------------------------------------------------------------------------------
     def make(self, typ, p):
-        from pyoda_time import (AnnualDate, DateInterval, DateTimeZone, DateTimeZoneProviders, Duration, Instant, Interval, LocalDate, LocalTime,
-                                Offset, Period, YearMonth)
+        from pyoda_time import (AnnualDate, CalendarSystem, DateInterval, DateTimeZone, DateTimeZoneProviders, Duration, Instant, Interval, LocalDate,
+                                LocalTime, Offset, Period, YearMonth)
         from pyoda_time.time_zones import ZoneInterval
 
         if typ == "Duration":
@@ -83,7 +84,18 @@ class Gen:
                       lambda: Offset.zero + Offset.from_seconds(sec), lambda: Offset.from_ticks(sec * 10**7), lambda: Offset.from_nanoseconds(sec * 10**9)]
             return self.rnd.choice(routes)()
         if typ == "LocalDate":
-            return LocalDate._ctor(days_since_epoch=p[1], calendar=self.cals[p[0]])
+            cal = self.cals[p[0]]
+            f = self.fields.get((p[0], p[1]))
+            # the same day by different public routes: from the day number, from its fields (when the driver knows them), by
+            # arithmetic from the day before, through the ISO calendar
+            routes = [lambda: LocalDate._ctor(days_since_epoch=p[1], calendar=cal)] * 2
+            if f is not None:
+                routes += [lambda: LocalDate(f[0], f[1], f[2], cal)] * 3
+            if cal._min_days < p[1]:
+                routes.append(lambda: LocalDate._ctor(days_since_epoch=p[1] - 1, calendar=cal).plus_days(1))
+            if CalendarSystem.iso._min_days <= p[1] <= CalendarSystem.iso._max_days:
+                routes.append(lambda: LocalDate._ctor(days_since_epoch=p[1], calendar=CalendarSystem.iso).with_calendar(cal))
+            return self.rnd.choice(routes)()
         if typ == "LocalTime":
             return LocalTime.from_nanoseconds_since_midnight(p[0])
         if typ == "LocalDateTime":
@@ -270,16 +282,20 @@ def gen(args) -> list:
                 def in_year(p):
                     miy = cal.get_months_in_year(yy)
                     m = rnd.choice([1, 6, 7, miy - 1, miy, rnd.randint(1, miy)])
-                    d = rnd.randint(1, cal.get_days_in_month(yy, m))
+                    dim = cal.get_days_in_month(yy, m)
+                    d = rnd.choice([1, dim, rnd.randint(1, dim), rnd.randint(1, dim)])
                     out = list(p)
                     out[0] = pa[0]
                     out[1] = _LD(yy, m, d, cal)._days_since_epoch
+                    g.fields[(out[0], out[1])] = (yy, m, d)          # (remembered: the fields route of make() uses them)
                     return out
 
                 pa, pb, pc = in_year(pa), in_year(pb), in_year(pc)
                 if rnd.random() < 0.3:
                     pc = list(pb)
             vals = [g.make(typ, p) for p in (pa, pb, pc)]
+        except NameError:            # a driver error must not pass for "not a value"
+            raise
         except Exception:  # noqa: BLE001 - parameters did not form a value (e.g. Feb 30): not an event
             continue
         if rnd.random() < 0.85:
